@@ -138,12 +138,23 @@ def run_worker(engine, variant, args, journal, timeout):
     return (r.returncode, out, r.stderr[-2000:])
 
 
-def run_batch(engine, variant, seed, tag, profile, runs, steps, extra_args=(), label="", timeout=1800, first=0):
+HANG_PROPS = {
+    ("seq", "std"): ["C01"], ("seq", "mut"): ["C01", "C04"], ("seq", "fault"): ["C01", "C13"],
+    ("buf", "laws"): ["C09"], ("buf", "typed"): ["C10", "C09"], ("buf", "adapters"): ["C12", "C09"],
+    ("buf", "write"): ["C11", "C12"], ("buf", "byz"): [],
+}
+
+
+def run_batch(engine, variant, seed, tag, profile, runs, steps, extra_args=(), label="", timeout=None, first=0):
     """Partition runs over worker processes. A worker that dies is itself an
     observation: its journal gives the exact op prefix; the rest of its range
     is resumed by a fresh worker. Returns dict(violations=[...], summaries=[...], crashes=n)."""
     os.makedirs(JOURNALS, exist_ok=True)
     nchunks = max(1, min(NCPU * 4, runs // 200 or 1))
+    if timeout is None:
+        # a chunk normally takes well under a second per 1000 runs; a worker that needs
+        # 100x that is stuck in a call that does not return (reported from its journal)
+        timeout = 45 + (runs // nchunks) * steps * 0.0004
     bounds = [first + (runs * k) // nchunks for k in range(nchunks + 1)]
     chunks = [(bounds[k], bounds[k + 1]) for k in range(nchunks) if bounds[k] < bounds[k + 1]]
     violations, summaries = [], []
@@ -173,10 +184,23 @@ def run_batch(engine, variant, seed, tag, profile, runs, steps, extra_args=(), l
                 except OSError:
                     pass
                 break
-            if rc == "timeout":
-                raise HarnessError("worker timeout %s %s [%d,%d)" % (engine, variant, a, b))
-            # crashed: build a violation record from the journal
+            # crashed or hung: build a violation record from the journal
             hdr, ops, order = read_journal(jpath)
+            if rc == "timeout":
+                if hdr is None:
+                    raise HarnessError("worker timeout %s %s [%d,%d) without journal" % (engine, variant, a, b))
+                crashes[0] += 1
+                run_idx = hdr.get("run", a)
+                rec = {"type": "violation", "engine": engine, "profile": profile, "variant": variant,
+                       "run": run_idx, "seed": hdr.get("seed"), "cfg": hdr.get("cfg", {}), "ops": ops, "drop_order": [],
+                       "violations": [{"props": HANG_PROPS.get((engine, profile), []), "kind": "worker-hang",
+                                       "detail": "the last journalled operation did not return within %.0f s (the whole chunk normally takes < 1 s)" % timeout,
+                                       "step": max(0, len(ops) - 1)}]}
+                for k in ("prog", "plan"):
+                    if k in hdr:
+                        rec[k] = hdr[k]
+                res_v.append(rec)
+                break  # one hang per chunk is enough; do not resume the rest of the range
             if hdr is None:
                 raise HarnessError("worker %s/%s died (%s) without a journal: %s" % (engine, variant, _sig_name(rc), err))
             crashes[0] += 1
@@ -187,7 +211,7 @@ def run_batch(engine, variant, seed, tag, profile, runs, steps, extra_args=(), l
                    "violations": [{"props": crash_props(ops), "kind": "worker-crash:" + _sig_name(rc),
                                    "detail": "worker process died with %s while executing the last journalled operation; stderr: %s" % (_sig_name(rc), err.strip()[-300:]),
                                    "step": max(0, len(ops) - 1)}]}
-            for k in ("prog", "nest"):
+            for k in ("prog", "plan"):
                 if k in hdr:
                     rec[k] = hdr[k]
             res_v.append(rec)
@@ -234,9 +258,9 @@ def replay_once(engine, variant, rec, scratch):
     write_json(scratch, rec)
     try:
         r = subprocess.run([binpath(variant, engine), "replay", scratch], env=ENV, stdout=subprocess.PIPE,
-                           stderr=subprocess.PIPE, text=True, timeout=120)
+                           stderr=subprocess.PIPE, text=True, timeout=20)
     except subprocess.TimeoutExpired:
-        return (["timeout"], True, [])
+        return (["worker-hang"], True, [])
     if r.returncode not in (0, 1):
         return (["worker-crash:" + _sig_name(r.returncode)], True, [])
     viol = []
